@@ -81,6 +81,7 @@ pub fn ghost_uuid(i: u8) -> Uuid {
     Uuid::from_u128(0xaaaaaaaa_00ff_4000_8000_000000000000u128 | i as u128)
 }
 
+pub const UUID_SYNC_ACCT: Uuid = uuid::uuid!("aaaaaaaa-00ab-4000-8000-000000000001");
 pub const UUID_RBADMIN: Uuid = uuid::uuid!("aaaaaaaa-00aa-4000-8000-000000000001");
 
 pub const TEST_CERT: &str = r#"-----BEGIN CERTIFICATE-----
@@ -147,6 +148,8 @@ pub enum Op {
     /// use a custom attribute / class on an object
     CustomSet { r: usize, obj: Obj, idx: u8, with_class: bool },
     ClassRemove { r: usize, obj: Obj, idx: u8 },
+    /// make the object a synchronised object with this external id (None: clear the external id)
+    ExtId { r: usize, obj: Obj, val: Option<u8> },
     Advance { r: usize, secs: u64, nanos: u32 },
     Repl { from: usize, to: usize },
     Refresh { from: usize, to: usize },
@@ -179,6 +182,7 @@ impl Op {
             Op::IllFormed { .. } => "ill_formed",
             Op::CustomSet { .. } => "custom_set",
             Op::ClassRemove { .. } => "class_remove",
+            Op::ExtId { .. } => "ext_id",
             Op::Advance { .. } => "advance",
             Op::Repl { .. } => "repl",
             Op::Refresh { .. } => "refresh",
@@ -211,6 +215,7 @@ impl Op {
             | Op::IllFormed { r, .. }
             | Op::CustomSet { r, .. }
             | Op::ClassRemove { r, .. }
+            | Op::ExtId { r, .. }
             | Op::Advance { r, .. }
             | Op::Restart { r } => *r,
             Op::Repl { to, .. } | Op::Refresh { to, .. } => *to,
@@ -402,6 +407,14 @@ impl World {
             let mut e = person(UUID_RBADMIN, "rbadmin");
             e.add_ava(Attribute::Description, Value::new_utf8s("harness recycle bin admin"));
             wr.internal_create(vec![e]).expect("rbadmin");
+            let sa = entry_init!(
+                (Attribute::Class, EntryClass::Object.to_value()),
+                (Attribute::Class, EntryClass::SyncAccount.to_value()),
+                (Attribute::Name, Value::new_iname("harness_sync")),
+                (Attribute::Uuid, Value::Uuid(UUID_SYNC_ACCT)),
+                (Attribute::Description, Value::new_utf8s("harness sync agreement"))
+            );
+            wr.internal_create(vec![sa]).expect("sync account");
             wr.internal_modify_uuid(
                 UUID_IDM_RECYCLE_BIN_ADMINS,
                 &ModifyList::new_list(vec![Modify::Present(Attribute::Member, Value::Refer(UUID_RBADMIN))]),
@@ -760,6 +773,18 @@ impl World {
                     Attribute::Class,
                     PartialValue::new_iutf8(&custom_class(*idx)),
                 )];
+                wr.internal_modify_uuid(obj.uuid(), &ModifyList::new_list(v)).map_err(e2s)?;
+            }
+            Op::ExtId { obj, val, .. } => {
+                let mut v = vec![
+                    Modify::Present(Attribute::Class, EntryClass::SyncObject.to_value()),
+                    Modify::Purged(Attribute::SyncParentUuid),
+                    Modify::Present(Attribute::SyncParentUuid, Value::Refer(UUID_SYNC_ACCT)),
+                    Modify::Purged(Attribute::SyncExternalId),
+                ];
+                if let Some(i) = val {
+                    v.push(Modify::Present(Attribute::SyncExternalId, Value::new_iutf8(&format!("ext{i}"))));
+                }
                 wr.internal_modify_uuid(obj.uuid(), &ModifyList::new_list(v)).map_err(e2s)?;
             }
             Op::IllFormed { obj, kind, .. } => {
